@@ -1074,3 +1074,184 @@ Proof.
   - intros. eapply dino_call_passthrough; eauto.
   - intros. eapply ijepa_call_passthrough; eauto.
 Qed.
+
+(* ================================================= sequences of calls on one collator object *)
+Definition call_ok (cl : bool * Z * list draw) : Prop := 0 <= snd (fst cl) /\ Forall draw_ok (snd cl).
+
+(* number of calls with a ctx *)
+Definition nctx (calls : list (bool * Z * list draw)) : Z := len (filter (fun cl => fst (fst cl)) calls).
+
+Lemma dino_seq_ok : forall c calls k has_ctx B tr b r,
+  dcfg_ok c -> nth_error calls k = Some (has_ctx, B, tr) -> 0 <= B -> Forall draw_ok tr ->
+  nth_error (dino_seq c calls) k = Some (Ok (b, r)) ->
+  (has_ctx = true -> exists ms, r = Some ms /\ dino_ok c B ms) /\
+  (has_ctx = false -> r = None /\ tr = []).
+Proof.
+  intros c calls k has_ctx B tr b r Hc Hk HB Htr H.
+  unfold dino_seq in H. rewrite nth_error_map, Hk in H. simpl in H. inversion H as [H1]. clear H.
+  unfold dino_call in H1. destruct has_ctx.
+  - split; [intros _|discriminate].
+    destruct (dino_collate c B tr) as [ms| |] eqn:E; try discriminate.
+    inversion H1; subst. exists ms. split; auto. eapply dino_collate_ok; eauto.
+  - split; [discriminate|intros _]. destruct tr; try discriminate. inversion H1; subst. auto.
+Qed.
+
+Lemma nctx_cons : forall cl calls, nctx (cl :: calls) = (if fst (fst cl) then 1 else 0) + nctx calls.
+Proof.
+  intros [[hc B] tr] calls. unfold nctx, len. simpl. destruct hc; simpl length; lia.
+Qed.
+
+Lemma ijepa_seq_ok : forall calls c sizes ctr k has_ctx B tr ctrk r,
+  jcfg_ok c -> sizes_ok sizes -> Forall call_ok calls ->
+  nth_error calls k = Some (has_ctx, B, tr) ->
+  nth_error (ijepa_seq c sizes ctr calls) k = Some (ctrk, r) ->
+  ctrk = ctr + nctx (firstn k calls) /\
+  (has_ctx = false -> r = None) /\
+  (has_ctx = true -> exists o, r = Some o /\ (o_psize o, o_esize o) = block_sizes c sizes ctrk /\
+                               o_ctr o = ctrk + 1 /\
+                               ijepa_ok c B (o_psize o) (o_esize o) (o_enc o) (o_pred o)).
+Proof.
+  induction calls as [|[[hc0 B0] tr0] calls IH]; intros c sizes ctr k has_ctx B tr ctrk r Hc Hs Hall Hk H.
+  - destruct k; discriminate.
+  - inversion Hall as [|? ? [HB0 Htr0] Hall']; subst. simpl in HB0, Htr0.
+    simpl in H. destruct (ijepa_call c sizes ctr tt hc0 B0 tr0) as [[[u ctr'] o]| |] eqn:Ecall;
+      try (destruct k; discriminate).
+    assert (Hctr' : ctr' = ctr + (if hc0 then 1 else 0) /\
+                    (hc0 = false -> o = None) /\
+                    (hc0 = true -> exists oo, o = Some oo /\ (o_psize oo, o_esize oo) = block_sizes c sizes ctr /\
+                                              o_ctr oo = ctr + 1 /\
+                                              ijepa_ok c B0 (o_psize oo) (o_esize oo) (o_enc oo) (o_pred oo))).
+    { unfold ijepa_call in Ecall. destruct hc0.
+      - destruct (ijepa_collate c sizes ctr B0 tr0) as [oo| |] eqn:Eo; try discriminate.
+        inversion Ecall; subst. destruct (ijepa_collate_ok _ _ _ _ _ _ Hc Hs HB0 Htr0 Eo) as (A1 & A2 & A3 & _).
+        split; [auto|]. split; [discriminate|]. intros _. exists oo. auto.
+      - destruct tr0; try discriminate. inversion Ecall; subst. split; [lia|]. split; [auto|discriminate]. }
+    destruct Hctr' as (E1 & E2 & E3).
+    destruct k as [|k].
+    + simpl in Hk, H. inversion Hk; subst. inversion H; subst. simpl. unfold nctx, len; simpl.
+      split; [lia|]. split; auto.
+    + simpl in Hk, H.
+      destruct (IH c sizes ctr' k has_ctx B tr ctrk r Hc Hs Hall' Hk H) as (F1 & F2 & F3).
+      split; auto. simpl firstn. rewrite nctx_cons. simpl. lia.
+Qed.
+
+(* ================================================= outside the premise: relaxation levels and draw counts *)
+Lemma draw_box_len c bh bw tr top lf tr' : draw_box c bh bw tr = Ok (top, lf, tr') -> length tr = S (S (length tr')).
+Proof.
+  unfold draw_box. intros H. destruct tr as [|[| |? ? ?| |] [|[| |? ? ?| |] tr]]; try discriminate.
+  destruct (_ && _) in H; try discriminate. inversion H; subst. reflexivity.
+Qed.
+
+(* _sample_block_mask_constrained entered with the counter [tries]: if it returns after n rejected iterations (2 integer
+   draws each), the returned mask avoids the first max(len(regions) - (tries + n) // self.tries, 0) predictor blocks *)
+Lemma constrained_relaxed : forall fuel c eh ew gs tries tr l tr',
+  constrained fuel c eh ew (map (map negb) gs) tries tr = Ok (l, tr') ->
+  exists n : nat, length tr = (2 * S n + length tr')%nat /\
+    forall g, In g (firstn (Z.to_nat (Z.max (len gs - (tries + Z.of_nat n) / jTries c) 0)) gs) -> disjoint l (nz 0 g).
+Proof.
+  induction fuel as [|f IH]; intros c eh ew gs tries tr l tr' H; simpl in H; try discriminate.
+  destruct (draw_box c eh ew tr) as [[[top lf] tr1]| |] eqn:Ed; try discriminate.
+  pose proof (draw_box_len _ _ _ _ _ _ _ Ed) as Hlen.
+  destruct (jMinKeep c <? _) eqn:E.
+  - inversion H; subst. exists 0%nat. split; [simpl; lia|].
+    intros g Hg. replace (tries + Z.of_nat 0) with tries in Hg by lia.
+    assert (Hl : len (map (map negb) gs) = len gs) by (unfold len; rewrite map_length; reflexivity).
+    rewrite Hl, firstn_map. apply fold_disjoint. exact Hg.
+  - destruct (IH _ _ _ _ _ _ _ _ H) as (n & L & D). exists (S n). split; [lia|].
+    intros g Hg. apply D. replace (tries + 1 + Z.of_nat n) with (tries + Z.of_nat (S n)) by lia. exact Hg.
+Qed.
+
+(* as soon as the encoder block has more than min_keep patches the loop needs at most len(regions) * self.tries
+   rejected iterations (counted from tries = 0) *)
+Lemma constrained_draws : forall fuel c eh ew acc tries tr l tr', jcfg_ok c -> Forall draw_ok tr ->
+  0 <= eh -> 0 <= ew -> 1 <= jTries c -> 0 <= tries -> jMinKeep c < eh * ew ->
+  constrained fuel c eh ew acc tries tr = Ok (l, tr') ->
+  Z.of_nat (length tr) <= 2 * (Z.max (len acc * jTries c - tries) 0 + 1) + Z.of_nat (length tr').
+Proof.
+  induction fuel as [|f IH]; intros c eh ew acc tries tr l tr' Hc Htr Heh Hew HT Htries Hmk H; simpl in H; try discriminate.
+  destruct (draw_box c eh ew tr) as [[[top lf] tr1]| |] eqn:Ed; try discriminate.
+  pose proof (draw_box_len _ _ _ _ _ _ _ Ed) as Hlen.
+  destruct (draw_box_spec _ _ _ _ _ _ _ Htr Ed) as (D1 & D2 & D3).
+  destruct (jMinKeep c <? _) eqn:E.
+  - inversion H; subst. lia.
+  - assert (Ht1 : 0 <= tries + 1) by lia.
+    specialize (IH _ _ _ _ _ _ _ _ Hc D3 Heh Hew HT Ht1 Hmk H).
+    destruct (Z_lt_le_dec tries (len acc * jTries c)) as [Hlt|Hge]; [lia|].
+    exfalso.
+    assert (Hq : len acc <= tries / jTries c) by (apply Z.div_le_lower_bound; lia).
+    replace (Z.to_nat (Z.max (len acc - tries / jTries c) 0)) with 0%nat in E by lia.
+    simpl in E.
+    assert (Hg : is_grid c eh ew (rect_grid c top (top + eh) lf (lf + ew))) by (exists top, lf; splits; auto; lia).
+    destruct (is_grid_facts _ _ _ _ Hc Heh Hew Hg) as (_ & Cg & _).
+    rewrite len_nz, Cg in E. lia.
+Qed.
+
+Lemma enc_loop_draws : forall n c eh ew acc mk tr ms mk' tr', jcfg_ok c -> Forall draw_ok tr ->
+  0 <= eh -> 0 <= ew -> 1 <= jTries c -> jMinKeep c < eh * ew ->
+  enc_loop n c eh ew acc mk tr = Ok (ms, mk', tr') ->
+  Z.of_nat (length tr) <= Z.of_nat n * (2 * (len acc * jTries c + 1)) + Z.of_nat (length tr') /\ Forall draw_ok tr'.
+Proof.
+  induction n as [|n IH]; intros c eh ew acc mk tr ms mk' tr' Hc Htr Heh Hew HT Hmk H; simpl in H.
+  - inversion H; subst. split; [lia|auto].
+  - destruct (constrained (length tr) c eh ew acc 0 tr) as [[m tr1]| |] eqn:Ec; try discriminate.
+    destruct (enc_loop n c eh ew acc _ tr1) as [[[ms1 mk1] tr2]| |] eqn:Ee; try discriminate.
+    inversion H; subst.
+    destruct (constrained_spec _ _ _ _ _ _ _ _ _ Hc Htr Ec) as (_ & S2).
+    pose proof (constrained_draws _ _ _ _ _ _ _ _ _ Hc Htr Heh Hew HT (Z.le_refl 0) Hmk Ec) as Hd.
+    destruct (IH _ _ _ _ _ _ _ _ _ Hc S2 Heh Hew HT Hmk Ee) as [K1 K2].
+    split; auto. assert (0 <= len acc) by (unfold len; lia). nia.
+Qed.
+
+Lemma pred_loop_comps_len : forall n c ph pw mk tr ms comps mk' tr',
+  pred_loop n c ph pw mk tr = Ok (ms, comps, mk', tr') -> length comps = n.
+Proof.
+  induction n as [|n IHn]; intros c ph pw mk tr ms comps mk' tr' Ep; simpl in Ep.
+  - inversion Ep; subst. reflexivity.
+  - destruct (sample_block_mask c ph pw tr) as [[[m comp] tr1]| |]; try discriminate.
+    destruct (pred_loop n c ph pw _ tr1) as [[[[ms1 comps1] mk1] tr2]| |] eqn:Ep1; try discriminate.
+    inversion Ep; subst. simpl. f_equal. eapply IHn; eauto.
+Qed.
+
+Lemma batch_loop_draws : forall b c ph pw eh ew mkp mke tr ss mkp' mke' tr', jcfg_ok c -> Forall draw_ok tr ->
+  0 <= ph -> 0 <= pw -> 0 <= eh -> 0 <= ew -> 1 <= jTries c -> jMinKeep c < eh * ew ->
+  batch_loop b c ph pw eh ew mkp mke tr = Ok (ss, mkp', mke', tr') ->
+  Z.of_nat (length tr) <=
+  Z.of_nat b * (2 * Z.of_nat (jNPred c) + Z.of_nat (jNEnc c) * (2 * (Z.of_nat (jNPred c) * jTries c + 1)))
+  + Z.of_nat (length tr').
+Proof.
+  induction b as [|b IH]; intros c ph pw eh ew mkp mke tr ss mkp' mke' tr' Hc Htr Hph Hpw Heh Hew HT Hmk H; simpl in H.
+  - inversion H; subst. lia.
+  - destruct (pred_loop (jNPred c) c ph pw mkp tr) as [[[[pm comps] mkp1] tr1]| |] eqn:Ep; try discriminate.
+    destruct (pred_loop_spec _ _ _ _ _ _ _ _ _ _ Htr Hph Hpw Ep) as (gs & G1 & G2 & G3 & G4 & G5 & G6).
+    pose proof (pred_loop_trace_len _ _ _ _ _ _ _ _ _ _ Ep) as Lp.
+    pose proof (pred_loop_comps_len _ _ _ _ _ _ _ _ _ _ Ep) as Lc.
+    destruct (enc_loop (jNEnc c) c eh ew comps mke tr1) as [[[em mke1] tr2]| |] eqn:Ee; try discriminate.
+    destruct (enc_loop_draws _ _ _ _ _ _ _ _ _ _ Hc G6 Heh Hew HT Hmk Ee) as [Le E5].
+    destruct (batch_loop b c ph pw eh ew mkp1 mke1 tr2) as [[[[ss1 mkp2] mke2] tr3]| |] eqn:Eb; try discriminate.
+    inversion H; subst.
+    specialize (IH _ _ _ _ _ _ _ _ _ _ _ _ Hc E5 Hph Hpw Heh Hew HT Hmk Eb).
+    unfold len in Le. rewrite Lc in Le. nia.
+Qed.
+
+(* a whole collate call: one seed + at most 2 draws per predictor mask + 2 * (num_pred_masks * tries + 1) draws per encoder
+   mask, per sample - inside or outside the premise, as soon as the (clamped) encoder block has more than min_keep patches *)
+Lemma ijepa_collate_draws : forall c sizes ctr B tr o,
+  jcfg_ok c -> sizes_ok sizes -> 0 <= B -> Forall draw_ok tr -> 1 <= jTries c ->
+  ijepa_collate c sizes ctr B tr = Ok o ->
+  jMinKeep c < fst (o_esize o) * snd (o_esize o) ->
+  Z.of_nat (length tr) <=
+  1 + B * (2 * Z.of_nat (jNPred c) + Z.of_nat (jNEnc c) * (2 * (Z.of_nat (jNPred c) * jTries c + 1))).
+Proof.
+  intros c sizes ctr B tr o Hc Hs HB Htr HT H Hmk. unfold ijepa_collate in H.
+  destruct tr as [|[| | | |s] tr0]; try discriminate.
+  destruct (negb (s =? ctr + 1)); try discriminate.
+  destruct (block_sizes c sizes ctr) as [[ph pw] [eh ew]] eqn:Ebs.
+  destruct (block_sizes_bounds _ _ _ _ _ _ _ Hc Hs Ebs) as (Bph & Bpw & Beh & Bew).
+  inversion Htr as [|? ? _ Htr0]; subst.
+  destruct (batch_loop (Z.to_nat B) c ph pw eh ew _ _ tr0) as [[[[ss mkp] mke] tr1]| |] eqn:Eb; try discriminate.
+  destruct tr1; try discriminate. inversion H; subst o. simpl in Hmk.
+  assert (Hph : 0 <= ph) by lia. assert (Hpw : 0 <= pw) by lia.
+  assert (Heh : 0 <= eh) by lia. assert (Hew : 0 <= ew) by lia.
+  pose proof (batch_loop_draws _ _ _ _ _ _ _ _ _ _ _ _ _ Hc Htr0 Hph Hpw Heh Hew HT Hmk Eb) as Hd.
+  simpl length in *. rewrite Z2Nat.id in Hd by lia. lia.
+Qed.
